@@ -134,6 +134,9 @@ pub enum Interaction {
     TlsAbandon { stage: u8, end: End },
     /// TCP listener whose cluster's only backend refuses connections
     TcpRefused,
+    /// TLS handshake completed on the HTTPS listener that has HTTP/1.1 disabled, by a client that offers no
+    /// ALPN protocol (or only http/1.1): the proxy refuses the connection once the handshake is done
+    AlpnRefused { offers_h11: bool },
     /// HTTP/1.1 upgrade answered 101, a few bytes relayed, closed by the client or by the backend
     WsUpgrade { tls: bool, backend_closes: bool },
     /// 1..3 connections at the same time, one request each, to the cluster that admits two connections
@@ -166,6 +169,7 @@ impl Interaction {
             Interaction::H2Abort { .. } => "h2_abort_mid_response",
             Interaction::TlsAbandon { .. } => "tls_abandoned",
             Interaction::TcpRefused => "tcp_backend_refuses",
+            Interaction::AlpnRefused { .. } => "tls_refused_by_alpn_gate",
             Interaction::WsUpgrade { .. } => "ws_upgrade",
             Interaction::PerIp { conns, .. } if *conns > PER_IP_LIMIT as u8 => "per_ip_limit_hit",
             Interaction::PerIp { .. } => "per_ip_slots_taken",
@@ -262,6 +266,7 @@ fn interaction() -> impl Strategy<Value = Interaction> {
         1 => any::<bool>().prop_map(|reset| Interaction::H2Abort { reset }),
         2 => (0u8..3, end()).prop_map(|(stage, end)| Interaction::TlsAbandon { stage, end }),
         1 => Just(Interaction::TcpRefused),
+        1 => any::<bool>().prop_map(|offers_h11| Interaction::AlpnRefused { offers_h11 }),
         1 => (any::<bool>(), any::<bool>()).prop_map(|(tls, backend_closes)| Interaction::WsUpgrade { tls, backend_closes }),
         2 => (1u8..=3, any::<bool>(), any::<bool>()).prop_map(|(conns, tls, reset)| Interaction::PerIp { conns, tls, reset }),
     ]
@@ -435,6 +440,8 @@ struct Env {
     https: SocketAddr,
     tcp: SocketAddr,
     tcp_refuse: SocketAddr,
+    /// HTTPS listener with `disable_http11`
+    https_h2only: SocketAddr,
     seed: u64,
 }
 
@@ -516,7 +523,31 @@ impl StormLab {
         h2.worker.add_tcp_frontend("t1", tcp_refuse);
         h2.worker.add_backend("t1", "t1-0", raddr2);
 
-        let env = Env { http: h2.http_addr, https: h2.https_addr, tcp, tcp_refuse, seed: 0 };
+        // a second HTTPS listener that serves HTTP/2 only (disable_http11): a client without ALPN h2 is refused
+        // after its handshake
+        let https_h2only = lab::free_addr();
+        {
+            use sozu_command_lib::{
+                config::ListenerBuilder,
+                proto::command::{ActivateListener, AddCertificate, CertificateAndKey, ListenerType},
+            };
+            let mut b = ListenerBuilder::new_https(https_h2only.into());
+            b.with_front_timeout(Some(FRONT_S)).with_back_timeout(Some(BACK_S)).with_connect_timeout(Some(CONNECT_S)).with_request_timeout(Some(REQUEST_S));
+            let mut l = b.to_tls(None).expect("https listener config");
+            l.certificate = Some(crate::gens::certs::LAB_CERT.to_string());
+            l.key = Some(crate::gens::certs::LAB_KEY.to_string());
+            l.alpn_protocols = vec!["h2".into()];
+            l.disable_http11 = Some(true);
+            h2.worker.must(RequestType::AddHttpsListener(l));
+            h2.worker.must(RequestType::AddCertificate(AddCertificate {
+                address: https_h2only.into(),
+                certificate: CertificateAndKey { certificate: crate::gens::certs::LAB_CERT.to_string(), certificate_chain: vec![], key: crate::gens::certs::LAB_KEY.to_string(), versions: vec![], names: vec![] },
+                expired_at: None,
+            }));
+            h2.worker.must(RequestType::ActivateListener(ActivateListener { address: https_h2only.into(), proxy: ListenerType::Https.into(), from_scm: false }));
+        }
+
+        let env = Env { http: h2.http_addr, https: h2.https_addr, tcp, tcp_refuse, https_h2only, seed: 0 };
         let mut lab = StormLab { h2, env, _echo: echo, _limited: limited, _refusing: refusing, baseline: Gauges::new(), baseline_underflows: 0, baseline_moved: false };
         // warm-up: one request per listener (HTTPS: one HTTP/1.1 and one HTTP/2 connection), so that
         // lazily created gauges exist and one-time allocations are done
@@ -1108,6 +1139,18 @@ fn run_interaction(env: Env, idx: usize, it: &Interaction, held: &Held) -> Seen 
             }
             Ok(finish(Conn::Plain(s), *end, held) && ok)
         }
+        Interaction::AlpnRefused { offers_h11 } => {
+            let alpn: &[&str] = if *offers_h11 { &["http/1.1"] } else { &[] };
+            // the handshake may complete (the refusal comes after it) or be cut while its last flight is on
+            // its way: both are a refusal; what counts is that the proxy ends the connection by itself
+            match h2::tls_connect(env.https_h2only, host0, alpn) {
+                Ok((mut tls, _)) => {
+                    let _ = tls.sock.set_read_timeout(Some(Duration::from_millis(50)));
+                    Ok(wait_closed(&mut tls, Duration::from_secs(FRONT_S as u64 + 2)))
+                }
+                Err(_) => Ok(true),
+            }
+        }
         Interaction::TcpRefused => {
             let mut s = h1::connect(env.tcp_refuse, Duration::from_secs(2)).map_err(|e| format!("connect to the TCP listener: {e}"))?;
             let _ = s.write_all(b"anyone there?");
@@ -1426,7 +1469,7 @@ pub fn scenario(lab: &mut StormLab, case: &Case) -> CheckResult {
 }
 
 pub fn rule() -> &'static str {
-    "a live worker (front timeout 2 s, back 1 s, connect 1 s, request 1 s; zombie sweep configured out of the way) with an HTTP, an HTTPS (ALPN h2 + http/1.1) and two TCP listeners; clusters: HTTP/1.1 mock backend, h2c mock backend, a backend address that refuses, a cluster that admits 2 connections per client address, TCP echo backend, TCP backend that refuses. Baseline = every gauge QueryMetrics reports (proxy, cluster and backend level: client.connections, slab.entries, buffer.in_use, backend.connections, backend.pool.size, connections_per_backend, http.active_requests, protocol.*, h2.connection.*, accept_queue.connections ...; configuration / capacity / health / process gauges left out) once the worker is idle after one warm-up request per listener. A generated storm of 3..25 client interactions, sequential or up to 8 at a time, each ending in its own way: HTTP/1.1 keep-alive requests then close / reset / idle until the proxy's timeout; silent connection (HTTP, HTTPS, TCP listener); half a head then close / reset; client gone in the middle of a response (H1, TLS, H2; FIN / RST); backend silent (504), closing (502), garbage (502), cutting its response, refusing (503) - each behind an H1, TLS-H1 or H2 client; response never read; unknown host (404); HTTP/2 connection with 1..4 streams (H1 or h2c backend); HTTP/2 connection (0..2 streams completed) idle until the proxy's timeout, its socket then kept open and silent; HTTP/2 stream reset mid-response; HTTP/2 client gone mid-response; TLS handshake abandoned at three stages; TCP session closed by client / reset / backend / proxy timeout; TCP cluster whose backend refuses; websocket upgrade closed by either side; 1..3 simultaneous connections to the per-address limited cluster (third: 429). Phase 1: clients that went idle (HTTP/2 idle, response never read, any connection the proxy's timeout did not close within front timeout + 1.5 s) keep their sockets open and silent, all other sockets are closed: within 2 x front timeout + 3 s the worker's own timeouts must bring every gauge back to the baseline. Phase 2: every harness socket is closed and the gauges are polled every 200 ms for up to front timeout + 4 s. Oracle: all gauges return EXACTLY to the baseline (above = leak, below = negative drift), the metrics drain's gauge-underflow counter did not move, the worker is alive, serves one request per listener, and serves as many simultaneous connections from one address as the limited cluster admits (per-address slots released). A failure is re-run twice on a fresh worker and reported only when it reproduces. Non-trivial: >= 2 different abnormal endings observed in one storm; classes are counted only for interactions that ended the intended way."
+    "a live worker (front timeout 2 s, back 1 s, connect 1 s, request 1 s; zombie sweep configured out of the way) with an HTTP, an HTTPS (ALPN h2 + http/1.1) and two TCP listeners; clusters: HTTP/1.1 mock backend, h2c mock backend, a backend address that refuses, a cluster that admits 2 connections per client address, TCP echo backend, TCP backend that refuses. Baseline = every gauge QueryMetrics reports (proxy, cluster and backend level: client.connections, slab.entries, buffer.in_use, backend.connections, backend.pool.size, connections_per_backend, http.active_requests, protocol.*, h2.connection.*, accept_queue.connections ...; configuration / capacity / health / process gauges left out) once the worker is idle after one warm-up request per listener. A generated storm of 3..25 client interactions, sequential or up to 8 at a time, each ending in its own way: HTTP/1.1 keep-alive requests then close / reset / idle until the proxy's timeout; silent connection (HTTP, HTTPS, TCP listener); half a head then close / reset; client gone in the middle of a response (H1, TLS, H2; FIN / RST); backend silent (504), closing (502), garbage (502), cutting its response, refusing (503) - each behind an H1, TLS-H1 or H2 client; response never read; unknown host (404); HTTP/2 connection with 1..4 streams (H1 or h2c backend); HTTP/2 connection (0..2 streams completed) idle until the proxy's timeout, its socket then kept open and silent; HTTP/2 stream reset mid-response; HTTP/2 client gone mid-response; TLS handshake abandoned at three stages; TCP session closed by client / reset / backend / proxy timeout; TCP cluster whose backend refuses; TLS handshake completed without ALPN h2 on a listener that has HTTP/1.1 disabled (refused after the handshake); websocket upgrade closed by either side; 1..3 simultaneous connections to the per-address limited cluster (third: 429). Phase 1: clients that went idle (HTTP/2 idle, response never read, any connection the proxy's timeout did not close within front timeout + 1.5 s) keep their sockets open and silent, all other sockets are closed: within 2 x front timeout + 3 s the worker's own timeouts must bring every gauge back to the baseline. Phase 2: every harness socket is closed and the gauges are polled every 200 ms for up to front timeout + 4 s. Oracle: all gauges return EXACTLY to the baseline (above = leak, below = negative drift), the metrics drain's gauge-underflow counter did not move, the worker is alive, serves one request per listener, and serves as many simultaneous connections from one address as the limited cluster admits (per-address slots released). A failure is re-run twice on a fresh worker and reported only when it reproduces. Non-trivial: >= 2 different abnormal endings observed in one storm; classes are counted only for interactions that ended the intended way."
 }
 
 /// child-process entry: run this shard's scenarios
